@@ -28,6 +28,30 @@ def plain(x):
     return x
 
 
+def reorder(x, rng, mode):
+    """the same values with the keys of every dictionary in another order (lists keep their order)"""
+    if isinstance(x, dict):
+        items = [(k, reorder(v, rng, mode)) for k, v in x.items()]
+        if mode == "reversed":
+            items.reverse()
+        else:
+            rng.shuffle(items)
+        return dict(items)
+    if isinstance(x, list):
+        return [reorder(v, rng, mode) for v in x]
+    return x
+
+
+def order_probe(build, d, b2, rng):
+    for mode in ("reversed", "shuffled"):
+        b4 = bytes(build(reorder(copy.deepcopy(d), rng, mode)))
+        if b4 != b2:
+            k = next((j for j in range(min(len(b4), len(b2))) if b4[j] != b2[j]), min(len(b4), len(b2)))
+            return ("equal values supplied with the dictionary keys in another order (%s) are built differently: byte %d is %s, not %s" % (
+                mode, k, b4[k:k + 4].hex(), b2[k:k + 4].hex()))
+    return None
+
+
 def main():
     req = json.load(sys.stdin)
     P = parsers()
@@ -82,6 +106,8 @@ def main():
                         k = next((j for j in range(min(len(b3), len(want))) if b3[j] != want[j]), 0)
                         r["why"] = "read-modify-write of %s: byte %d differs although it is outside the field (or the field was not updated)" % (key, k)
             if r["why"] is None:
+                r["why"] = order_probe(cls.marshall_datain, d, b2, rng)
+            if r["why"] is None:
                 held.append((i, c["fmt"], cls, d, b2))
         except Exception as e:  # noqa
             r["why"] = "raised %s: %s" % (type(e).__name__, str(e)[:100])
@@ -121,6 +147,8 @@ def main():
             b2 = bytes(Inquiry.marshall_datain(copy.deepcopy(d)))
             if b2 != page:
                 r["why"] = "designation descriptor bytes -> dict -> bytes: %s rebuilt as %s" % (page.hex(), b2.hex())
+            else:
+                r["why"] = order_probe(Inquiry.marshall_datain, d, b2, rng)
         except Exception as e:  # noqa
             r["why"] = "designation descriptor raised %s: %s" % (type(e).__name__, str(e)[:80])
         out.append(r)
